@@ -69,3 +69,28 @@ Example C06_run_ahead_schedule_finishes :
   earliest _ _ ex_final = 1 /\
   map (fun w => length (w_done _ _ w)) (workers _ _ ex_final) = [2; 3].
 Proof. vm_compute. auto. Qed.
+
+(* ---------- why the work can be split by classes of names ---------- *)
+From RQ Require Import Apply Parser Quilt ViewSim Independence.
+
+(* For a class of names closed under "related through a file patch" (every file patch lies inside or outside it, which
+   is what C07 gives for the names handed to one worker): applying all file patches of a patch, or only those of the
+   class, leaves every name of the class the same - lines, existence, effective mode.  A worker that applies only
+   its own file patches to its own overlay computes what the sequential driver computes for those names. *)
+Theorem C06_class_is_independent :
+  forall inK dm fs cls,
+    (forall fp, cls fp = true -> fpK (K inK) fp) -> (forall fp, cls fp = false -> fp_out inK fp) ->
+    forall index sp fuzz fps st stK af afK af' st',
+    wsim (K inK) dm fs (a_files st) fs (a_files stK) ->
+    apply_file_patches fs st index sp fuzz fps af = ROk (af', st') ->
+    exists afK' stK', apply_file_patches fs stK index sp fuzz (filter cls fps) afK = ROk (afK', stK') /\
+                      wsim (K inK) dm fs (a_files st') fs (a_files stK').
+Proof. exact class_is_independent. Qed.
+Print Assumptions C06_class_is_independent.
+
+(* a file patch outside the class does not touch the overlay entries of the class *)
+Theorem C06_outside_is_a_frame :
+  forall inK fs st idx pn rev F fp ok st1,
+    fp_out inK fp -> apply_one_file_patch fs st idx pn rev F fp = ROk (ok, st1) -> veqK inK (a_files st1) (a_files st).
+Proof. exact apply_one_outside. Qed.
+Print Assumptions C06_outside_is_a_frame.
